@@ -31,6 +31,7 @@ structure SpecSt where
 
 /-- Chart defaults of `address` under schema version `v` ("" = no schema). -/
 def specDefaults (schemas : List Schema) (v address : String) : Meta :=
+  if v = "" then [] else
   match schemas.find? (·.version == v) with
   | some sc => (match sc.find address with | some d => d | none => [])
   | none => []
